@@ -2,20 +2,20 @@ SPECIFICATION MCSpec
 CONSTANTS
  N = 3
  T = 2
- NV = 1
+ NV = 2
  Cmds = {1, 2, 3}
  RepostAppends = TRUE
  Defect = "none"
  Honest = {1, 2}
- Args <- ArgsCore
- ByzReqs <- Byz3
- MaxByz = 1
- Faults <- FApi
- MaxFault = 1
- Tampers <- TAll
- MaxTamper = 1
- Plants <- PNone
- MaxPlant = 0
+ Args <- ArgsFile
+ ByzReqs <- ByzNone
+ MaxByz = 0
+ Faults <- FNone
+ MaxFault = 0
+ Tampers <- TNone
+ MaxTamper = 0
+ Plants <- PSome
+ MaxPlant = 1
  Statuses <- SNone
  MaxChain = 0
  InitSt <- IActive
